@@ -5,8 +5,8 @@ package main
 
 import (
 	"errors"
-	"os"
 	"fmt"
+	"os"
 	"time"
 
 	netty "github.com/go-netty/go-netty"
@@ -111,7 +111,8 @@ func scenario(cfg hlib.ChanCfg, lay layout, closer string, bound int) *explore.S
 			for _, id := range seq {
 				seen[id]++
 			}
-			for id, c := range calls {
+			for _, c := range hlib.SortedCalls(calls) {
+				id := c.ID
 				if c.OK() && seen[id] == 0 {
 					fs = append(fs, explore.Finding{Key: "lost-before-close", Msg: fmt.Sprintf("payload #%d was accepted before Close but not handed to the transport before it was closed; log: %s | %s", id, t.LogString(), hlib.Describe(o.ws))})
 					break
